@@ -31,6 +31,7 @@ def main(argv):
            "shrink_runs": 0, "wall_s": 0.0}
     st = {"failed": False, "after_fail": 0, "best_json": None, "best": None}
     fps = set()
+    cover = {}
     t0 = time.time()
 
     def body(case):
@@ -55,6 +56,8 @@ def main(argv):
                 res["sub"][k] = res["sub"].get(k, 0) + v
             for k, v in out.excluded.items():
                 res["excluded"][k] = res["excluded"].get(k, 0) + v
+            for k, v in out.cover.items():
+                cover.setdefault(k, set()).update(v)
             if out.nontrivial and out.fingerprint is not None:
                 if out.fingerprint not in fps:
                     fps.add(out.fingerprint)
@@ -87,6 +90,7 @@ def main(argv):
         res["violation"] = st["best"]
         res["shrink_runs"] = st["after_fail"]
     res["nontrivial_fps"] = sorted(fps)
+    res["cover"] = {k: sorted(v) for k, v in cover.items()}
     res["wall_s"] = round(time.time() - t0, 2)
     res["build_stats"] = build.STATS
     with open(outfile, "w") as f:
